@@ -19,6 +19,19 @@ CLAIMED = {
     },
 }
 
+CLAIMED["C19"] = {
+    "text": "Rocq theorem about a Gallina model of the process-global registry, library import and Program.__init__'s "
+            "selection/duplicate test: for every universe of source files, every history (any length) of class "
+            "definitions and Program constructions consistent with the source files and every request, the lookup "
+            "equals a history-free function of the requested libraries; requesting two libraries that define one name "
+            "fails. The selection predicate is read off the source on every run (GenFacts); model tied to the code by "
+            "differential runs of histories in fresh subprocesses (prefix-related user libraries, built-in sets).",
+    "note": "Trusted: class identity = (module, name); Python import semantics (module + sub-modules + their imports) "
+            "is modelled, not verified; dynamic classes claiming a requested library's module are outside the theorem.",
+    "technique": "Rocq proof (invariant over histories) + regenerated selection predicate + subprocess differential correspondence",
+    "design": "DESIGN.md section 4 C19",
+}
+
 NOT_YET = "check not built yet (planned with the same technique, see DESIGN.md section 4); not claimed in this commit"
 
 
